@@ -30,5 +30,7 @@ def install(world):
             ("bounds", "forall(0, length(result), lambda i: 0 < result[i] and result[i] <= max_volume)", ["C06"]),
             ("sum", "seqsum(result) == volume", ["C06"]),
         ],
-        native={"imports": ["from robotools.worklists.utils import partition_volume"], "call": "partition_volume(volume, max_volume=max_volume)"},
+        native={"imports": ["from robotools.worklists.utils import partition_volume"], 
+                # called twice with the first result spoiled in between (a memoised / shared result list fails the same clauses)
+                "call": "(lambda first: (first.append(-1.0), partition_volume(volume, max_volume=max_volume))[1])(partition_volume(volume, max_volume=max_volume))"},
     ))
